@@ -65,16 +65,21 @@ def run_case(ctx, p):
             ctx.violation(f"trans_att-differs:{where}:{tag}", f"{where}: trans_att coordinate is not the splice list", p)
 
     reported(out, "calibrate")
-    try:
-        v = case.variances()
-        if f.double:
-            mc = f.ds.dts.monte_carlo_double_ended(result=out, **v, conf_ints=[2.5, 97.5], mc_sample_size=5)
-        else:
-            mc = f.ds.dts.monte_carlo_single_ended(result=out, **v, conf_ints=[2.5, 97.5], mc_sample_size=5)
-        reported(mc, "monte_carlo")
-    except Exception as ex:
-        ctx.violation(f"monte-carlo-raised:{type(ex).__name__}:{tag}", f"monte carlo on the result raised {type(ex).__name__}: {str(ex)[:100]}", p)
-        mc = None
+    v = case.variances()
+    mc = None
+    optsets = [{}, {"mc_remove_set_flag": False}, {"reduce_memory_usage": True}] + ([{"var_only_sections": True}, {"exclude_parameter_uncertainty": True}] if f.double else [])
+    for oi, opts in enumerate(optsets):  # every option set of the Monte Carlo routines must hand the definitions on
+        oname = ",".join(f"{k}={val}" for k, val in opts.items()) or "default"
+        try:
+            if f.double:
+                mci = f.ds.dts.monte_carlo_double_ended(result=out, **v, conf_ints=[2.5, 97.5], mc_sample_size=5, **opts)
+            else:
+                mci = f.ds.dts.monte_carlo_single_ended(result=out, **v, conf_ints=[2.5, 97.5], mc_sample_size=5, **opts)
+            reported(mci, "monte_carlo" if not opts else f"monte_carlo[{oname}]")
+            if oi == (p["seed"] % len(optsets)):
+                mc = mci  # one of the option sets (seed-chosen) also goes through the netCDF round trip
+        except Exception as ex:
+            ctx.violation(f"monte-carlo-raised:{type(ex).__name__}:{tag}:{oname}", f"monte carlo on the result raised {type(ex).__name__}: {str(ex)[:100]}", p)
     with tempfile.TemporaryDirectory(prefix="c17_") as td:
         for name, ds in (("calibrate", out), ("monte_carlo", mc)):
             if ds is None:
